@@ -25,6 +25,21 @@ CIDS = ["c1", "c2"]
 VALS = ["A", "B", "C"]
 
 
+# --------------------------------------------------------------------------- request contexts
+CTX_MODES = ["now", "delay", "dl", "never"]
+
+
+def ctx_policy(rng, steps, policy=None):
+    """Every LogPin/LogUnpin gets its own request context; per script (seeded) the contexts are cancelled right
+    after the call returns (what REST/RPC callers do), after a short delay, carry a deadline that expires while
+    the item is queued, are never cancelled, or a mix. An accepted operation must take effect regardless."""
+    policy = policy or rng.choice(["now", "now", "now", "mixed", "mixed", "delay", "dl", "never"])
+    for x in steps:
+        if x["k"] in ("pin", "unpin", "batch"):
+            x["ctx"] = rng.choice(CTX_MODES) if policy == "mixed" else policy
+    return policy
+
+
 # --------------------------------------------------------------------------- batching scripts
 def rnd_op(rng, cids=CIDS, punpin=0.35):
     c = rng.choice(cids)
@@ -89,6 +104,7 @@ def gen_batch(rng, klass):
     st.append({"k": "settle"})
     s["steps"] = st
     linger(s)
+    s["ctxpolicy"] = ctx_policy(rng, st)
     s["nontrivial"] = batch_nontrivial(s)
     return s
 
@@ -110,7 +126,7 @@ def batch_nontrivial(s):
                 (s["batching"] and any(v >= 2 for v in per.values())))
 
 
-def tlc_batch_scripts(ctx, num):
+def tlc_batch_scripts(ctx, num, rng):
     """Scripts read off behaviours of the specification: TLC simulates CrdtPinsetBatch (CrdtPinsetBatchGen) and
     prints the environment's part of each behaviour once it is quiescent."""
     r = ctx.tlc("CrdtPinsetBatchGen.tla", "CrdtPinsetBatchGen.cfg", count=False, workers=1, timeout=1200,
@@ -142,6 +158,7 @@ def tlc_batch_scripts(ctx, num):
         s = {"batching": j["batching"], "maxsize": j["maxsize"], "maxage_ms": age if j["batching"] else 0,
              "maxq": j["maxq"], "class": "tlc-sim", "steps": st}
         linger(s)
+        s["ctxpolicy"] = ctx_policy(rng, s["steps"])
         s["nontrivial"] = batch_nontrivial(s)
         out.append(s)
     if not out:
@@ -186,6 +203,7 @@ def targeted_batch():
     for s in out:
         s["class"] = s.pop("klass")
         linger(s)
+        s["ctxpolicy"] = ctx_policy(None, s["steps"], "now")
         s["nontrivial"] = batch_nontrivial(s)
     return out
 
@@ -455,6 +473,8 @@ def run(ctx):
                 "operations at 2-3 replicas, connections and sync points; non-trivial = some CID written by >= 2 "
                 "replicas. distinct by abstract script content")
     ctx.assumptions = [
+        "every LogPin/LogUnpin is issued with its own request context, cancelled right after the call / after a delay / "
+        "by a 300us deadline / never (seeded per script); an operation that returned nil must take effect regardless",
         "delivery order between replicas is controlled only through connectivity (connections are only added); the "
         "specification over-approximates the orders in which a replica may merge deltas",
         "operations are issued by a replica that is not behind its connected component (single writer per component "
@@ -483,7 +503,7 @@ def run(ctx):
     # ---- GEN
     classes = ["direct", "size", "age", "queue", "failsize", "failage", "mixed"]
     nb = 8 if quick else 100
-    batch = targeted_batch() + tlc_batch_scripts(ctx, 30 if quick else 1000) + \
+    batch = targeted_batch() + tlc_batch_scripts(ctx, 30 if quick else 1000, rng) + \
         [gen_batch(rng, k) for k in classes for _ in range(nb)]
     for i, s in enumerate(batch):
         s["id"] = i + 1
@@ -491,12 +511,20 @@ def run(ctx):
         net.append(gen_net(rng))
     for i, s in enumerate(net):
         s["id"] = i + 1
+        s["ctxpolicy"] = ctx_policy(rng, s["steps"], None if s["class"] == "seeded" else "now")
         s["nontrivial"] = net_nontrivial(s)
     ctx.log("generated %d batching scripts, %d multi-replica scripts" % (len(batch), len(net)))
     # ---- R + V
     try:
         run_batch(ctx, batch, par=8 if quick else 12)
-        run_net(ctx, net, par=8 if quick else 12)
+        try:
+            run_net(ctx, net, par=8 if quick else 12)
+        except Exception as e:     # vcheck.Infra (the orchestrator runs as __main__, so match by name)
+            if type(e).__name__ != "Infra" or not ctx.violations:
+                raise
+            # the batching stage already observed a property breach on real code; a rig that cannot
+            # construct its multi-replica situations afterwards does not take that verdict away
+            ctx.log("multi-replica stage: %s (violations from the batching stage stand)" % e)
     except Crashed:
         pass
 
